@@ -94,6 +94,24 @@ func main() {
 			o.Level = "exploration"
 		}
 		os.Exit(core.Drive(o))
+	case "selftest":
+		fs := flag.NewFlagSet("selftest", flag.ExitOnError)
+		verif := fs.String("verif", "/verif", "verif dir")
+		nseeds := fs.Int("seeds", 40, "number of seeds")
+		nruns := fs.Int("runs", 3, "runs per seed")
+		fs.Parse(os.Args[2:])
+		self, _ := os.Executable()
+		dir := filepath.Dir(self)
+		var phases []core.Phase
+		for _, k := range []string{"C08", "C09", "C10", "C14", "C15", "C16", "C17"} {
+			phases = append(phases, core.Phase{Key: k, Bin: filepath.Join(dir, "simcheck")})
+		}
+		phases = append(phases, core.Phase{Key: "C10R", Bin: filepath.Join(dir, "simcheck-race"), Race: true})
+		var seeds []uint64
+		for i := 0; i < *nseeds; i++ {
+			seeds = append(seeds, core.SplitMix64(uint64(i)+envSeed()))
+		}
+		os.Exit(core.SelfTest(*verif, phases, seeds, *nruns))
 	case "replay":
 		fs := flag.NewFlagSet("replay", flag.ExitOnError)
 		verif := fs.String("verif", "/verif", "verif dir")
